@@ -324,7 +324,9 @@ func c06Late(r *core.Result, s *session, env *core.Env) {
 			replay(n, "after a round change")
 		}
 	})
-	w.Run(sim.StartsThen(sim.FIFO), nil)
+	// a party that panicked inside a call keeps its mutex: nothing more is delivered once a retransmission has failed
+	stop := func(*sim.World) bool { return failed }
+	w.Run(sim.StartsThen(sim.FIFO), stop)
 	if failed {
 		return
 	}
@@ -335,7 +337,7 @@ func c06Late(r *core.Result, s *session, env *core.Env) {
 			replay(n, "after it had finished")
 		}
 	}
-	w.Run(sim.FIFO, nil)
+	w.Run(sim.FIFO, stop)
 	if failed {
 		return
 	}
